@@ -1,0 +1,114 @@
+//! Verification hooks (cargo feature `verif`, off by default).
+//!
+//! Events are JSON lines collected in a thread-local sink that a test harness
+//! installs with [start] and drains with [take]. Nothing is recorded and no
+//! code path changes unless a harness on the same thread has called [start].
+use std::cell::{Cell, RefCell};
+
+thread_local! {
+    static SINK: RefCell<Option<Vec<String>>> = const { RefCell::new(None) };
+    static SYNC: RefCell<Option<Box<dyn Fn(&str)>>> = const { RefCell::new(None) };
+    static WORK: [Cell<u64>; 4] = const { [Cell::new(0), Cell::new(0), Cell::new(0), Cell::new(0)] };
+    static BUDGET: Cell<u64> = const { Cell::new(u64::MAX) };
+    static DETAIL: Cell<u64> = const { Cell::new(0) };
+}
+
+/// Start recording on this thread. At most `detail` per-step events are kept
+/// (counters are always kept); exceeding `budget` units of work panics.
+pub fn start(detail: u64, budget: u64) {
+    SINK.with(|s| *s.borrow_mut() = Some(Vec::new()));
+    WORK.with(|w| w.iter().for_each(|c| c.set(0)));
+    DETAIL.with(|d| d.set(detail));
+    BUDGET.with(|b| b.set(budget));
+}
+
+/// Stop recording on this thread and return the recorded events.
+pub fn take() -> Vec<String> {
+    BUDGET.with(|b| b.set(u64::MAX));
+    SINK.with(|s| s.borrow_mut().take()).unwrap_or_default()
+}
+
+/// Install a callback invoked at every [sync] point reached on this thread.
+pub fn set_sync(f: Option<Box<dyn Fn(&str)>>) {
+    SYNC.with(|s| *s.borrow_mut() = f);
+}
+
+pub fn active() -> bool {
+    SINK.with(|s| s.borrow().is_some())
+}
+
+/// Record one event unconditionally.
+pub fn emit(line: String) {
+    SINK.with(|s| {
+        if let Some(v) = s.borrow_mut().as_mut() {
+            v.push(line);
+        }
+    });
+}
+
+/// Record a per-step event while the detail allowance lasts.
+pub fn emit_detail(line: impl FnOnce() -> String) {
+    if !active() {
+        return;
+    }
+    let left = DETAIL.with(|d| d.get());
+    if left > 0 {
+        DETAIL.with(|d| d.set(left - 1));
+        emit(line());
+    }
+}
+
+/// Counter: functions walked by the stage analysis.
+pub const STAGE_FNS: usize = 0;
+/// Counter: statements and expressions examined by the stage analysis.
+pub const STAGE_NODES: usize = 1;
+/// Counter: types visited by the host-shareable type closure.
+pub const TYPES: usize = 2;
+
+/// Account `units` of work on `counter`; panics once the budget given to [start] is exceeded.
+pub fn work(counter: usize, units: u64) {
+    if !active() {
+        return;
+    }
+    let total = WORK.with(|w| {
+        w[counter].set(w[counter].get().saturating_add(units));
+        w.iter().map(|c| c.get()).fold(0u64, u64::saturating_add)
+    });
+    if total > BUDGET.with(|b| b.get()) {
+        BUDGET.with(|b| b.set(u64::MAX));
+        emit(format!("{{\"ev\":\"budget\",\"work\":{total}}}"));
+        panic!("verif budget exceeded");
+    }
+}
+
+pub fn work_done() -> [u64; 4] {
+    WORK.with(|w| [w[0].get(), w[1].get(), w[2].get(), w[3].get()])
+}
+
+/// A named point at which a harness scheduler may pause this thread.
+pub fn sync(point: &str) {
+    if active() {
+        emit(format!("{{\"ev\":\"phase\",\"name\":\"{point}\"}}"));
+    }
+    SYNC.with(|s| {
+        if let Some(f) = s.borrow().as_ref() {
+            f(point)
+        }
+    });
+}
+
+/// JSON string literal for `s`.
+pub fn js(s: &str) -> String {
+    let mut out = String::with_capacity(s.len() + 2);
+    out.push('"');
+    for c in s.chars() {
+        match c {
+            '"' => out.push_str("\\\""),
+            '\\' => out.push_str("\\\\"),
+            c if (c as u32) < 0x20 => out.push_str(&format!("\\u{:04x}", c as u32)),
+            c => out.push(c),
+        }
+    }
+    out.push('"');
+    out
+}
